@@ -261,7 +261,10 @@ def read_cgsmiles(pattern):
         # if the branch ends we reset the anchor
         # and set branching False unless we are in
         # a nested branch
-        if stop <= len(pattern) and branch_stop:
+        # several branches can end at the same position (i.e. '))'), so
+        # we close one branch after the other
+        close_from = stop
+        while stop <= len(pattern) and branch_stop:
             branching = False
             prev_node = branch_anchor.pop()
             if branch_anchor:
@@ -272,12 +275,14 @@ def read_cgsmiles(pattern):
             # We need to know how often the branch has
             # to be added so we first identify the branch
             # terminal character ')' called eon_a.
-            eon_a = _find_next_character(pattern, [')'], stop)
+            eon_a = _find_next_character(pattern, [')'], close_from)
+            close_from = eon_a + 1
             # Then we check if the expansion character
             # is next.
             if (eon_a+1 < len(pattern) and pattern[eon_a+1] == "|") or\
-               (eon_a+2 < len(pattern) and pattern[eon_a+2] == "|"):
-                if pattern[eon_a+2] == "|":
+               (eon_a+2 < len(pattern) and pattern[eon_a+2] == "|" and\
+                pattern[eon_a+1] in symbol_to_order):
+                if pattern[eon_a+1] != "|":
                     anchor_order = symbol_to_order[pattern[eon_a+1]]
                     recipe = recipes[prev_node][0]
                     recipes[prev_node][0] = (recipe[0], recipe[1], anchor_order)
@@ -332,12 +337,15 @@ def read_cgsmiles(pattern):
             #================================================
                 if pattern[eon_b] in symbol_to_order:
                     prev_bond_order = symbol_to_order[pattern[eon_b]]
+                close_from = eon_b
             elif eon_a+1 < len(pattern) and pattern[eon_a+1] in symbol_to_order:
                 prev_bond_order = symbol_to_order[pattern[eon_a+1]]
             # if all branches are done we need to reset the lists
             # when all nested branches are completed
             if len(branch_anchor) == 0:
                 recipes = defaultdict(list)
+            # is the next character closing the enclosing branch as well?
+            branch_stop = close_from < len(pattern) and pattern[close_from] == ')'
 
     # raise some errors for strange stuff
     if cycle:
